@@ -55,10 +55,25 @@ def run_wrapper(rng, obs, focus='c01'):
     x0 = [round(rng.uniform(-3, 3), 2) for _ in range(dim)]
     if rng.random() < 0.15: x0 = [round(v * rng.choice([10.0, 40.0]), 1) for v in x0]      # far from the origin: relative steps exceed any rounding a constraint performs
     kw = {'disp': 0, 'full_output': 1, 'retall': 1}
+    xargs = None
+    if rng.random() < 0.25:          # args=: extra arguments for the cost, cost(x, *args)
+        xargs = (rng.choice([0.5, -1.0, 3.0]),)
+        raw0 = raw
+        def with_args(x, *a):
+            if a != xargs:
+                obs.check(False, 'c01:the cost is called with the configured ExtraArgs', wrapper=which, received=[repr(v) for v in a], configured=list(xargs)); return raw0(x)
+            return raw0(x) + a[0]
+        probe.f = with_args; probe.always_args = True
+        raw = lambda x: raw0(x) + xargs[0]
+        kw['args'] = xargs; obs.event('cost_with_extra_args')
     box = None
     if rng.random() < (0.5 if focus != 'c02' else 1.0):
         box = K.gen_box(rng, dim, x0, shape='finite')
         kw['bounds'] = list(zip(box['lo'], box['hi']))
+        # (cliprange=False re-draws exterior values at random - a non-deterministic constraint, outside the premises of C01/C03/C04: only C02 runs it)
+        mode = rng.choice([(None, None), (None, None), (True, None), (False, None), (True, True), (None, True)] + ([(True, False), (None, False)] if focus == 'c02' else []))
+        if mode[0] is not None: kw['tightrange'] = mode[0]
+        if mode[1] is not None: kw['cliprange'] = mode[1]
     cons_spec = pen_spec = None
     if rng.random() < (0.4 if focus != 'c03' else 1.0):
         cons_spec = K.gen_constraint(rng, dim, box)
@@ -79,7 +94,15 @@ def run_wrapper(rng, obs, focus='c01'):
     else:
         start = x0
     obs.desc = {'wrapper': which, 'dim': dim, 'cost': cost_spec, 'x0': start, 'box': box, 'cons': cons_spec, 'pen': pen_spec,
-                'maxiter': kw['maxiter'], 'maxfun': kw['maxfun']}
+                'maxiter': kw['maxiter'], 'maxfun': kw['maxfun'], 'args': xargs, 'tightrange': kw.get('tightrange'), 'cliprange': kw.get('cliprange')}
+    itermon = evalmon = None
+    cb = []
+    if focus == 'c04':
+        from mystic.monitors import Monitor
+        if rng.random() < 0.7: itermon = kw['itermon'] = Monitor()
+        if rng.random() < 0.7: evalmon = kw['evalmon'] = Monitor()
+        if rng.random() < 0.6: kw['callback'] = lambda x: cb.append([float(v) for v in np.ravel(x)])
+        obs.desc.update(itermon=itermon is not None, evalmon=evalmon is not None, callback='callback' in kw)
     out = {'fmin': fmin, 'fmin_powell': fmin_powell, 'diffev': diffev, 'diffev2': diffev2}[which](probe, start, **kw)
     xopt, fopt = out[0], out[1]
     allvecs = out[-1]
@@ -94,6 +117,27 @@ def run_wrapper(rng, obs, focus='c01'):
         if fopt is not None and math.isfinite(float(fopt)):
             obs.check(refc(list(xl)) == xl, 'c03:reported solution satisfies the constraints', wrapper=which, best=xl, cons=cons_spec)
         obs.event('assert:c03')
+    if focus == 'c04':
+        it, fc = int(out[2]), int(out[3])
+        obs.check(fc == probe.n, 'c04:evaluation counter equals the number of real cost calls', observed=fc, expected=probe.n, solver=which, inf_returns=0, evalmon_kind='plain' if evalmon is not None else 'none',
+                  after='wrapper call')
+        if evalmon is not None and which != 'diffev2':
+            same = len(evalmon) == probe.n and all([float(v) for v in np.ravel(a)] == list(c[0]) and float(b) == float(c[1]) for a, b, c in zip(evalmon._x, evalmon._y, probe.calls))
+            obs.check(same, 'c04:evaluation monitor holds exactly the real (x, cost) pairs in call order', observed_len=len(evalmon), expected_len=probe.n, swapped_while_live=False, after='wrapper call', solver=which)
+        elif evalmon is not None:
+            obs.check(len(evalmon) == probe.n, 'c04:evaluation monitor holds exactly the real (x, cost) pairs in call order', observed_len=len(evalmon), expected_len=probe.n, swapped_while_live=False,
+                      after='wrapper call', solver=which)
+        if itermon is not None and fopt is not None and math.isfinite(float(fopt)) and len(itermon):
+            lastx, lasty = [float(v) for v in np.ravel(itermon._x[-1])], float(np.ravel(itermon._y[-1])[0])
+            obs.check(lastx == xl and lasty == float(fopt), 'c04:step monitor of a stopped run ends in the reported result', last=[lastx, lasty], reported=[xl, float(fopt)], solver=which, after='wrapper call')
+            ys = [float(np.ravel(v)[0]) for v in itermon._y]
+            obs.check(all(b <= a for a, b in zip(ys, ys[1:])), 'c04:best-energy history is non-increasing', history=ys[:12], solver=which, after='wrapper call')
+            obs.check(len(itermon) == it + 1, 'c04:step monitor holds one record per generation', records=len(itermon), generations=it, solver=which, after='wrapper call')
+        if 'callback' in kw:
+            obs.check(len(cb) == it + 1, 'c04:callback invoked exactly once per iteration', observed=len(cb), step=it + 1, note='the initial evaluation is an iteration of its own (generation 0)', solver=which, collapses_so_far=0, after='wrapper call')
+            if cb and fopt is not None and math.isfinite(float(fopt)):
+                obs.check(cb[-1] == xl, 'c04:callback receives the current best', got=cb[-1], best=xl, step=it, solver=which, collapses_so_far=0)
+        obs.event('assert:c04', 3); obs.event('iterations', it); obs.event('api_calls', 1)
     refpen = K.ref_penalty(pen_spec)
     obs.event('cost_calls', probe.n)
     if fopt is not None and math.isfinite(float(fopt)):
